@@ -1117,7 +1117,8 @@ def check_ex_utf8(res, vi, model, scripts, env=None):
         res.evaluations += 1
         res.count('ex scripts: ill-formed pattern bytes / multi-byte repetition on valid UTF-8 buffers')
         inp = {'ic': sc['ic'], 'file': hx(b''.join(sc['lines'])), 'ex_script': hx(ex_script(sc['ic'], sc['cmds'])),
-               'script_text': ex_script(sc['ic'], sc['cmds']).decode('utf-8', 'replace'), 'file_text': b''.join(sc['lines']).decode('utf-8', 'replace')}
+               'script_text': ex_script(sc['ic'], sc['cmds']).decode('utf-8', 'replace'), 'file_text': b''.join(sc['lines']).decode('utf-8', 'replace'),
+               'oracle': 'unchanged' if sc.get('cont') else 'valid-utf8'}
         if r.crashed():
             res.violation({'what': 'the editor crashed or hung on an ex script (rc=%s)' % r.rc, 'input': [inp], 'observed': r.err[-1200:].decode('utf-8', 'replace')})
             continue
@@ -1223,7 +1224,8 @@ def check_ex_sequences(res, vi, probe, model, scripts, env=None, max_report=4):
             res.violation({'what': 'vi -s -e: commands with valid patterns behave differently when commands with rejected patterns were run before them in the same '
                                    'editor session (an existing match is missed or a different one reported)',
                            'input': [{'ic': sc['ic'], 'file': hx(b''.join(sc['lines'])), 'ex_script': hx(ex_script(sc['ic'], small)),
-                                      'script_text': text(sc, small), 'without_rejected_commands': text(sc, k)}],
+                                      'script_text': text(sc, small), 'without_rejected_commands': text(sc, k),
+                                      'oracle': 'same-as', 'ex_script_reference': hx(ex_script(sc['ic'], k))}],
                            'expected': (b.files.get('f') or b'').decode('utf-8', 'replace'), 'observed': (a.files.get('f') or b'').decode('utf-8', 'replace')})
     # oracle 2: the model's prediction (each pattern alone)
     if model:
@@ -1289,3 +1291,30 @@ def gen_mbrep(rng, n):
         lines = [pre + d + post.replace(b'$', b'') + b'\n', pre + c + c + post.replace(b'$', b'') + b'\n', b'z' + pre + c + d + b'\n', pre + b'\n', pre + d, d + pre + c + c + d + b'\n']
         out.append({'pats': [p], 'lines': lines})
     return out
+
+
+def replay_ex_item(res, vi, r):
+    """re-run an ex script of a replay file and evaluate the oracle recorded with it"""
+    f0 = vlib.unhx(r['file'])
+    out = vlib.run_ex(vi, vlib.unhx(r['ex_script']), files={'f': f0}, args=['f'], readback=['f'], timeout=60)
+    res.evaluations += 1
+    got = out.files.get('f')
+    inp = dict(r)
+    if out.crashed():
+        res.violation({'what': 'the editor crashed or hung on a replayed ex script (rc=%s)' % out.rc, 'input': [inp], 'observed': out.err[-1200:].decode('utf-8', 'replace')})
+        return
+    o = r.get('oracle')
+    if o == 'same-as':
+        ref = vlib.run_ex(vi, vlib.unhx(r['ex_script_reference']), files={'f': f0}, args=['f'], readback=['f'], timeout=60)
+        if ref.files.get('f') != got:
+            res.violation({'what': 'vi -s -e: commands with valid patterns behave differently when commands with rejected patterns were run before them in the same editor session',
+                           'input': [inp], 'expected': (ref.files.get('f') or b'').decode('utf-8', 'replace'), 'observed': (got or b'').decode('utf-8', 'replace')})
+    elif o == 'unchanged':
+        if got != f0:
+            res.violation({'what': 'vi -s -e: a pattern whose first literal begins with a UTF-8 continuation byte matched inside a multi-byte character of a valid UTF-8 line',
+                           'input': [inp], 'expected': f0.decode('utf-8', 'replace'), 'observed': (got or b'').decode('utf-8', 'replace')})
+    elif o == 'valid-utf8':
+        if got is not None and valid_utf8(f0) and not valid_utf8(got):
+            res.violation({'what': 'vi -s -e: a valid UTF-8 buffer becomes invalid UTF-8 under :s with a valid UTF-8 pattern and an ASCII replacement',
+                           'input': [inp], 'observed_hex': hx(got)})
+    res.sample({'replayed_ex_script': r.get('script_text'), 'buffer': (got or b'').decode('utf-8', 'replace')})
